@@ -726,6 +726,16 @@ def rule_a1(ctx: Ctx) -> None:
         return
     bounds = {unparse(c.args[1]) for c in calls if len(c.args) >= 3}
     if len(bounds) != 1:
+        # one check validated up to the sanity bound, another up to something else: evidence when that something is a loop
+        # variable of the driver (the length the description was learned from - sound there by construction, the check is vacuous)
+        sane = {b for b in bounds if any(st.targets[0].id == b and st.value.value >= 8 for st in cands)}
+        loop_vars = {t.id for n in walk_no_nested(f.node) if isinstance(n, ast.For) for t in ast.walk(n.target) if isinstance(t, ast.Name)}
+        loop_vars |= {st.targets[0].id for st in cands if st.value.value < 8}  # the counter the learning length starts from (n = 4)
+        for c in calls:
+            if len(c.args) >= 3 and unparse(c.args[1]) not in sane and unparse(c.args[1]) in loop_vars and sane:
+                ctx.violation("C17-A1", f, c, f"`{call_name(c)[-1]}` validates the description only up to `{unparse(c.args[1])}`, the driver's learning length, while the other "
+                              f"check uses the sanity bound `{sorted(sane)[0]}`: a description that fails on longer permutations is returned", robust=True)
+                return
         raise AnalysisError(f"{f.where}: sanity checks use different bounds {sorted(bounds)}")
     bound = bounds.pop()
     init = [st for st in cands if st.targets[0].id == bound]
